@@ -355,18 +355,17 @@ class YP(object):
         name, args = self._goal_name_args(term)
 
         # a predicate without facts has nothing to retract: fail, do not raise
-        remaining_clauses = self._predicates_store.get((name, len(args)), [])[:]
-        i = 0
-        while i < len(remaining_clauses):
-            clause = remaining_clauses[i]
-            match = False
+        key = (name, len(args))
+        # Logical update view: walk the facts as they are now. Facts removed by
+        # someone else while this generator was suspended are skipped, and each
+        # removal is applied to the store as it is at that moment, so changes made
+        # in the meantime are not lost.
+        for clause in self._predicates_store.get(key, [])[:]:
+            if not any(c is clause for c in self._predicates_store.get(key, [])):
+                continue
             for cut in clause.match(args):
-                match = True
-                del remaining_clauses[i]
-                self._update_predicate(self.atom(name), len(args), remaining_clauses)
+                self._predicates_store[key] = [c for c in self._predicates_store.get(key, []) if c is not clause]
                 yield False
-            if not match:
-                i += 1
 
     def retractall(self, term):
         '''retractall(Term) removes all dynamic facts matching Term, without backtracking over identical clauses.'''
@@ -572,7 +571,9 @@ class YP(object):
             return YPFail()
 
     def _match_all_clauses(self, clauses, args):
-        for clause in clauses:
+        # iterate over a copy: facts asserted or retracted while this enumeration is
+        # suspended must not change which facts it visits (logical update view)
+        for clause in list(clauses):
             for cut in clause.match(args):
                 yield False
                 if cut:
